@@ -411,6 +411,40 @@ FIRST_HIT_OK = re.compile(r'(::Deref>?::deref$|::iter$|IntoIterator( for [^>]*)?
                           r'Option::transpose$|Result::map_err$|Option::map$|Result::map$|Option::ok_or\w*$|::as_slice$|Option::copied$|Option::cloned$)')
 
 
+def slot_bumpers(F):
+    """display names of the functions that advance the global ordered-call cursor: local functions whose own body performs an atomic
+    read-modify-write on `next_ordered_call_index` (whatever they are called and whatever they wrap the result in)"""
+    got = getattr(F, '_slot_bumpers', None)
+    if got is not None:
+        return got
+    from facts import strip_generics
+    got = set()
+    for f in F.fns.values():
+        if f.kind not in ('fn', 'assoc') or len(f.blocks) > 12:
+            continue
+        for bb, t in f.calls():
+            if re.search(r'Atomic\w*::fetch_(add|sub)$|Atomic\w*::(swap|compare_exchange\w*|fetch_update)$', symex.callee_name(t)) and t.get('args'):
+                a0 = t['args'][0]
+                pl = a0.get('cp') or a0.get('mv') or {}
+                # the receiver is (a reference to) the cursor field
+                names = []
+                for b_, s_ in f.stmts():
+                    if s_.get('k') == 'assign' and s_['p'].get('l') == pl.get('l') and 'ref' in s_.get('rv', {}):
+                        names = [e.get('name') for e in s_['rv']['ref']['pr'] if isinstance(e, dict)]
+                if 'next_ordered_call_index' in names or any(isinstance(e, dict) and e.get('name') == 'next_ordered_call_index' for e in pl.get('pr', [])):
+                    got.add(strip_generics(f.defp))
+    F._slot_bumpers = got
+    return got
+
+
+def unwrap_newtype(v):
+    """a value wrapped in single-field struct literals (`CallOrder(i)`) -> the value"""
+    v = strip(v)
+    while v[0] == 'agg' and v[1] == 'adt' and len(v[4]) == 1:
+        v = strip(v[4][0][1])
+    return v
+
+
 def selector_rules(chk, F, cfg, r_scan='R01.1', r_pure='R01.2', r_ord='R04.5', r_bump='R04.2'):
     fn = F.fn('eval::DynCtx::match_call_pattern')
     inline = lambda f, d, n: f.kind in ('fn', 'assoc') and f.locals[0]['ty'] == 'bool' and len(f.blocks) < 30  # noqa: E731  (derived PartialEq::eq etc.)
@@ -522,7 +556,8 @@ def selector_rules(chk, F, cfg, r_scan='R01.1', r_pure='R01.2', r_ord='R04.5', r
         ]
         tables.check_table(chk, r_ord, fn, rows, oracle, config=cfg)
         for p in ord_paths:
-            bumps = list(p.calls(r'SharedState::bump_ordered_call_index$|Atomic\w*::fetch_add$'))
+            bump_rx = r'SharedState::bump_ordered_call_index$|Atomic\w*::fetch_add$' + ''.join('|^%s$' % re.escape(n_) for n_ in sorted(slot_bumpers(F)))
+            bumps = list(p.calls(bump_rx))
             if r_bump:
                 chk.ob(r_bump, 'every ordered call consumes exactly one global slot, before the lookup', len(bumps) == 1 and bumps[0].ndec <= 1, config=cfg, fn=fn,
                        site='slot-bump', what='slot bump count/position', found={'bumps': len(bumps), 'after_decisions': bumps[0].ndec if bumps else None}, expected='one bump right after the mode switch')
@@ -912,7 +947,7 @@ def slot_predicate(chk, F, rule, cfg, cf):
                     if o is not None and strip(o)[0] == 'c':
                         outs.add(bool(strip(o)[1]))
                     elif o is not None and is_call(o, r'ops::Range(<Idx>)?::contains$|RangeBounds>?::contains$') and \
-                            field_path(strip(o)[2][0])[1][-1:] == ['ordered_call_index_range'] and 'ordered_call_index' in show(strip(o)[2][1]):
+                            field_path(strip(o)[2][0])[1][-1:] == ['ordered_call_index_range'] and ('ordered_call_index' in show(strip(o)[2][1]) or field_path(strip(o)[2][1])[0] == ('param', 0, 1)):
                         # std contract: Range::contains(&r, &i) == (r.start <= i && i < r.end)
                         outs.add(d1 >= 0 and d2 < 0)
                     elif o is not None:
@@ -954,6 +989,10 @@ def eval_slot_cmp(cmp, d1, d2):
         if ns[-1:] == ['ordered_call_index'] or (s[0] == 'param'):
             return ('i', lin[1])
         if s[0] in ('deref', 'field') and 'ordered_call_index' in show(s):
+            return ('i', lin[1])
+        if root == ('param', 0, 1) and ns and ns[0].startswith('_ref__') or (root == ('param', 0, 1) and len(ns) >= 1 and not any(n_ in ('ordered_call_index_range',) for n_ in ns)):
+            # something the predicate closure captured from the lookup function (the call's position, whatever it is called and
+            # whatever newtype it travels in): not a property of the element, which is the closure's own argument
             return ('i', lin[1])
         return None
     a, b = sym(l), sym(r)
